@@ -54,14 +54,8 @@ func (b badLine) message(lineNo int) string {
 	return parser.NewErrorConversion(nil, b.Qty, lineNo, b.Text).Error()
 }
 
-var c09DbCmds = [][]string{
-	{"reg"}, {"bal"}, {"report", "totals"}, {"report", "unresolved"}, {"report", "element-total", "cal"},
-	{"csv", "database"}, {"csv", "database-resolved"}, {"summary", "2021/01/24"}, {"stats"}, {"bal", "-s", "cal"},
-}
-var c09LogCmds = [][]string{
-	{"reg"}, {"bal"}, {"csv", "log"}, {"print"}, {"report", "totals"}, {"report", "quantity"}, {"report", "unresolved"},
-	{"summary", "2021/01/24"}, {"stats"}, {"reg", "-s", "cal"}, {"reg", "-f", "."}, {"bal", "-c"},
-}
+var c09DbCmds = shapeArgs(func(s cmdShape) bool { return s.Db && !s.Lint })
+var c09LogCmds = shapeArgs(func(s cmdShape) bool { return s.Log && !s.Lint })
 
 func checkC09(w *Worker) {
 	w.appInit()
